@@ -134,6 +134,15 @@ def run(ctx):
             add({"chunks": allc, "garbage": True, "foreign_id": "someone-else"}, "foreign-id", size=size)
             add({"chunks": allc, "garbage": True, "flip_bit": 1 + rng.below(8 * 30)}, "sidecar-bit-flip", size=size)
             add({"chunks": allc, "garbage": True, "trunc_sidecar": 1 + rng.below(40)}, "sidecar-truncated", size=size)
+    # frames that overtake their FileBegin (the receiver handles it later than the sender's resume grace) for a file whose chunks are all
+    # recorded and whose last chunk is torn, with a display callback that takes time (the CLI installs one): the readers parked on those
+    # frames must not find the file complete
+    for size in (200, 96, 74):
+        total = (size + 31) // 32
+        for st in (1, 2):
+            cases.append({"name": f"overtaken-{size}-{st}s", "files": [{"p": "file.bin", "n": size, "s": 31 + size}], "chunk": 32, "streams": st, "conns": 1, "transport": "netsim",
+                          "noroot": True, "resume": True, "timeout_ms": 8000, "recv_stats_delay_ms": 60, "prior": [{"file": "file.bin", "chunks": list(range(total)), "damage": [total - 1]}],
+                          "delays": {"recv.file_begin.enter": 450}, "_kind": "all-complete-last-damaged-frames-first"})
     cpath = os.path.join(ctx.workdir, "tamper.cases")
     with open(cpath, "w") as f:
         for c in cases:
